@@ -47,6 +47,10 @@ pub struct ProcCase {
     pub sched_seed: u64,
     /// program name given to ExternalSatSolver ("simchild" is registered; anything else is missing)
     pub program: String,
+    /// instead of one raw solve call: a whole argumentation query (several SAT calls, one child
+    /// process each) answered through ExternalSatSolver on the seam, checked against RefSem
+    #[serde(default)]
+    pub query: Option<crate::statics::StaticCase>,
 }
 
 #[derive(Default, Clone, Debug)]
@@ -60,6 +64,8 @@ struct ChildReport {
 
 #[derive(Clone, Debug)]
 enum CallOutcome {
+    /// a whole query was run: its answer (debug text of the violation, if any)
+    Query(Option<(String, String)>, u64),
     Sat(Vec<Option<bool>>),
     Unsat,
     Unknown,
@@ -226,7 +232,32 @@ fn gen_case(run_seed: u64) -> ProcCase {
         sched: if srng.chance(1, 4) { Sched::Pct(srng.range(1, 3)) } else { Sched::Random },
         sched_seed: srng.next_u64() >> 8,
         program: if frng.chance(1, 40) { "no-such-solver".into() } else { "simchild".into() },
+        query: None,
     }
+}
+
+fn gen_query_case(run_seed: u64) -> ProcCase {
+    let mut c = gen_case(run_seed);
+    let mut rng = Rng::sub(run_seed, "query");
+    let mode = *rng.pick(&[crate::props::statq::Mode::C01, crate::props::statq::Mode::C02, crate::props::statq::Mode::C03, crate::props::statq::Mode::C04]);
+    let mut q = crate::props::statq::gen_static(&mut rng, mode);
+    q.queries.truncate(2);
+    q.reuse_objects = true;
+    q.backend = crate::statics::Backend::Process { seed: 0, comment_bytes: 0 };
+    c.fault = None;
+    c.program = "simchild".into();
+    c.pattern = match c.pattern {
+        ReadPattern::IgnoreStdin => ReadPattern::ReadAllFirst,
+        p => p,
+    };
+    // keep the reply volume moderate: a query makes several calls
+    c.plan.comments_before = c.plan.comments_before.min(40);
+    c.plan.comments_after = c.plan.comments_after.min(40);
+    // several calls with instances of a few kB each: byte-sized pipes would only multiply steps
+    c.stdin_capacity = c.stdin_capacity.max(64);
+    c.stdout_capacity = c.stdout_capacity.max(7);
+    c.query = Some(q);
+    c
 }
 
 struct Exec {
@@ -251,12 +282,27 @@ fn execute(case: &ProcCase) -> Exec {
     let mut cfg = shuttle::Config::new();
     cfg.failure_persistence = shuttle::FailurePersistence::None;
     let volume = case.plan.comment_width * (case.plan.comments_before + case.plan.comments_after) + 64 * case.clauses.len() + 1000;
-    cfg.max_steps = shuttle::MaxSteps::FailAfter(1_000_000 + 60 * volume);
+    cfg.max_steps = shuttle::MaxSteps::FailAfter(if case.query.is_some() { 60_000_000 } else { 1_000_000 + 60 * volume });
     cfg.stack_size = 1 << 20;
     cfg.silence_warnings = true;
     let c2 = case.clone();
     let o2 = outcome.clone();
     let body = move || {
+        if let Some(q) = &c2.query {
+            // a whole argumentation query: every SAT call spawns a child on the seam
+            let q = crate::props::statq::normalise(q);
+            let out = crate::statics::exec_static_with_factory(&q, &|| Box::new(ExternalSatSolver::new("simchild".to_string(), vec![])) as Box<dyn SatSolver>);
+            let mut truth = crate::statics::Truth::of(&out.store);
+            let mut bad = None;
+            for (qq, a) in q.queries.iter().zip(out.answers.iter()) {
+                if let Some(x) = crate::statics::check_answer(&mut truth, q.sem, qq, a) {
+                    bad = Some(x);
+                    break;
+                }
+            }
+            *o2.lock().unwrap() = Some(CallOutcome::Query(bad, q.queries.len() as u64));
+            return;
+        }
         let mut s = ExternalSatSolver::new(c2.program.clone(), vec![]);
         for c in &c2.clauses {
             s.add_clause(c.iter().map(|l| Literal::from(*l as isize)).collect());
@@ -309,6 +355,9 @@ impl Property for ProcSim {
         }
     }
     fn gen(&self, run_seed: u64, _tier: Tier) -> Value {
+        if run_seed % 5 == 0 {
+            return serde_json::to_value(gen_query_case(run_seed)).unwrap();
+        }
         serde_json::to_value(gen_case(run_seed)).unwrap()
     }
     fn exec(&self, case: &Value) -> RunResult {
@@ -376,6 +425,18 @@ impl Property for ProcSim {
                 return r;
             }
         };
+        if let CallOutcome::Query(bad, nq) = &out {
+            r.count("argumentation_queries_through_the_seam", *nq);
+            if let Some((check, msg)) = bad {
+                r.violations.push(site(Violation::new("C16", &format!("query-{}", check), format!("argumentation query answered through ExternalSatSolver on the process seam: {}", msg))));
+            }
+            if !ex.report.dimacs_errors.is_empty() {
+                r.violations.push(site(Violation::new("C16", "dimacs-ill-formed", format!("bytes received on the child's stdin are not well-formed DIMACS: {}", ex.report.dimacs_errors[0]))).at("defect", "received-bytes"));
+            }
+            r.nontrivial = Some(d);
+            r.interleaving = Some(d);
+            return r;
+        }
         if missing_program {
             // spawning a missing program aborts ("Failed to spawn child process"); any result would be invented
             if !matches!(out, CallOutcome::Panicked(_) | CallOutcome::Unknown) {
@@ -417,6 +478,13 @@ impl Property for ProcSim {
     fn shrink(&self, case: &Value) -> Vec<Value> {
         let case: ProcCase = serde_json::from_value(case.clone()).unwrap();
         let mut out = vec![];
+        if let Some(q) = &case.query {
+            for s in crate::props::statq::shrink_static(q) {
+                if matches!(s.backend, crate::statics::Backend::Process { .. }) {
+                    out.push(ProcCase { query: Some(s), ..case.clone() });
+                }
+            }
+        }
         if !case.clauses.is_empty() {
             out.push(ProcCase { clauses: vec![], ..case.clone() });
             out.push(ProcCase { clauses: case.clauses[..case.clauses.len() / 2].to_vec(), ..case.clone() });
